@@ -298,6 +298,13 @@ func join(basePath *url.URL, relativePath *url.URL) *url.URL {
 	if basePath == nil {
 		return relativePath
 	}
+	if basePath.Scheme == "http" || basePath.Scheme == "https" {
+		// a network location: RFC 3986 5.2 (the reference's own query counts, not the base's; an escaped
+		// slash is not a separator; dot segments are removed)
+		resolved := basePath.ResolveReference(relativePath)
+		resolved.Fragment = ""
+		return resolved
+	}
 	newPath := *basePath
 	newPath.Path = path.Join(path.Dir(newPath.Path), relativePath.Path)
 	return &newPath
@@ -317,6 +324,12 @@ func resolvePath(basePath *url.URL, componentPath *url.URL) *url.URL {
 			return componentPath
 		}
 		return join(basePath, componentPath)
+	}
+	if componentPath.Scheme == "" && componentPath.Host == "" && componentPath.Path == "" && componentPath.RawQuery != "" && basePath != nil {
+		// RFC 3986 5.2.2: a reference made of a query only keeps the base's path
+		resolved := basePath.ResolveReference(componentPath)
+		resolved.Fragment = ""
+		return resolved
 	}
 	if componentPath.Scheme == "" && componentPath.Host != "" && basePath != nil && basePath.Scheme != "" {
 		// RFC 3986 5.2.2: a network-path reference (//host/path) inherits the scheme
